@@ -230,6 +230,30 @@ pub fn gen_case(rng: &mut Rng, idx: u64) -> Case {
             }
             mk("json", GCase::json("wide", &format!("{{\"type\":\"object\",\"properties\":{{{props}}}}}")), "wide_object")
         }
+        22 if rng.chance(1, 2) => {
+            // definitions that are nothing but references to one another: cycles of length 1..4 and long alias chains,
+            // reached from the root, a property, array items or a %json block inside a Lark grammar
+            let n = 1 + rng.below(4);
+            let chain = rng.chance(1, 3);
+            let len = if chain { [5usize, 60, 600][rng.below(3)] } else { n };
+            let mut defs = String::new();
+            for i in 0..len {
+                let target = if i + 1 < len { format!("#/$defs/r{}", i + 1) } else if chain { "#/$defs/leaf".to_string() } else { "#/$defs/r0".to_string() };
+                defs.push_str(&format!("\"r{i}\":{{\"$ref\":\"{target}\"}},"));
+            }
+            defs.push_str("\"leaf\":{\"type\":\"integer\"}");
+            let schema = match rng.below(4) {
+                0 => format!("{{\"$ref\":\"#/$defs/r0\",\"$defs\":{{{defs}}}}}"),
+                1 => format!("{{\"type\":\"object\",\"properties\":{{\"p\":{{\"$ref\":\"#/$defs/r0\"}},\"q\":{{\"type\":\"boolean\"}}}},\"required\":[\"q\"],\"$defs\":{{{defs}}}}}"),
+                2 => format!("{{\"type\":\"array\",\"items\":{{\"$ref\":\"#/$defs/r{}\"}},\"$defs\":{{{defs}}}}}", rng.below(len)),
+                _ => format!("{{\"anyOf\":[{{\"type\":\"null\"}},{{\"$ref\":\"#/$defs/r0\"}}],\"$defs\":{{{defs}}}}}"),
+            };
+            if rng.chance(1, 4) {
+                mk("lark", GCase::lark("alias_cycle_lark", &format!("start: \"x\" j\nj: %json {schema}\n")), "ref_alias_cycles")
+            } else {
+                mk("json", GCase::json("alias_cycle", &schema), "ref_alias_cycles")
+            }
+        }
         22 => {
             let refs = ["#", "#/$defs/a", "#/properties/x", "#/$defs/a/$defs/a", "http://x/y", "", "#/%", "#/$defs/~"];
             mk("json", GCase::json("refs", &format!("{{\"$defs\":{{\"a\":{{\"$ref\":\"{}\"}}}},\"properties\":{{\"x\":{{\"$ref\":\"{}\"}}}},\"$ref\":\"{}\"}}", rng.pick(&refs), rng.pick(&refs), rng.pick(&refs))), "ref_cycles")
